@@ -1,6 +1,7 @@
 package main
 
 import (
+	"context"
 	"encoding/json"
 	"flag"
 	"fmt"
@@ -644,11 +645,17 @@ func (e *Engine) validateSamples(results []*EntryResult) (int, []string) {
 	ovPath := filepath.Join(work, "overlay.json")
 	writeJSON(ovPath, ov)
 	var out []byte
-	for attempt := 0; attempt < 3; attempt++ {
-		cmd := exec.Command("go", "test", "-tags", "verif", "-vet=off", "-count=1", "-v", "-timeout", "20m", "-run", "^TestVerifReplaySamples$", "-overlay", ovPath, e.cfg.Package)
+	// the native validation is supporting evidence: it gets at most six minutes (a cold build
+	// cache, real sleeps in retry loops); what did not finish in time is simply not counted
+	valDeadline := time.Now().Add(6 * time.Minute)
+	for attempt := 0; attempt < 3 && time.Now().Before(valDeadline); attempt++ {
+		ctx, cancel := context.WithDeadline(context.Background(), valDeadline)
+		cmd := exec.CommandContext(ctx, "go", "test", "-tags", "verif", "-vet=off", "-count=1", "-v", "-timeout", "20m", "-run", "^TestVerifReplaySamples$", "-overlay", ovPath, e.cfg.Package)
 		cmd.Dir = modDir
 		cmd.Env = append(os.Environ(), "GOFLAGS=-mod=mod", "GOPROXY=off", "GOSUMDB=off", "GOTOOLCHAIN=local", "VERIF_SAMPLE_DIR="+sdir)
+		cmd.WaitDelay = 5 * time.Second
 		out, _ = cmd.CombinedOutput()
+		cancel()
 		if strings.Contains(string(out), "VERIF-SAMPLE ") || strings.Contains(string(out), "[build failed]") {
 			break
 		}
